@@ -14,7 +14,7 @@ src = os.environ.get('SEED_SRC', '/tmp/seed-out') + '/' + ID
 dst = '/verif/seeded/' + ID + os.environ.get('SEED_SUFFIX', '')
 if not os.path.exists(os.path.join(src, 'patch.diff')):
     src = dst
-env = dict(os.environ, GOFLAGS='-mod=mod', GOPROXY='off', GOSUMDB='off', GOTOOLCHAIN='local')
+env = dict(os.environ, GOFLAGS='-mod=mod -trimpath', GOPROXY='off', GOSUMDB='off', GOTOOLCHAIN='local')
 W = '/var/tmp/seedcheck-%s-%d' % (ID, os.getpid())
 os.makedirs(W)
 env['GOTMPDIR'] = W + '/gotmp'
